@@ -270,7 +270,14 @@ impl ExpectingPath {
 }
 
 impl<'a> Lexer<'a> {
-    pub fn new(input: &'a [u8]) -> Self {
+    pub fn new(input: &'a [u8]) -> (r: Self)
+        requires input@.len() <= 0x7fff_ffff_ffff_fff0,
+        ensures wf(r),
+            r.pos == 0,
+            r.input@ == input@,
+            !r.after_backslash,
+            !r.after_number_or_float,
+    {
         Lexer {
             input,
             pos: 0,
@@ -667,33 +674,57 @@ pub proof fn fv_vacuity_probe_stop_clauses(s: Seq<u8>, a: int, b: int)
 {
 }
 
-// ---- the tiling lemma: iterating next_token from 0 until Eof consumes the whole input ------
-// Model of a driver loop over the *contract* of next_token only (T1-T3): if each step returns
-// a length with pos' == pos + len, len >= 1 while pos < n, then after at most n steps pos == n,
-// and the lengths sum to n.  This is what "token texts concatenated are exactly the input"
-// means at the lexer level.
-pub open spec fn sum(s: Seq<nat>) -> nat
+// ---- the tiling theorem: a driver that calls next_token until Eof consumes exactly the input ----
+// `fv_driver_consumes_everything` is a CLIENT of the contracts only (it is not code from /repo): an
+// executable driver loop, verified against next_token's contract, whose postcondition is the lexer
+// half of the property statement: the lexeme lengths are all >= 1, they sum to |input| (so the
+// lexeme texts, concatenated, are exactly the input), every lexeme boundary is a char boundary when the
+// input is UTF-8 shaped, and the loop terminates (decreases |input| - pos).
+pub open spec fn total(s: Seq<usize>) -> int
     decreases s.len(),
 {
-    if s.len() == 0 { 0 } else { (s[0] + sum(s.subrange(1, s.len() as int))) as nat }
+    if s.len() == 0 { 0 } else { total(s.drop_last()) + s.last() as int }
 }
 
-pub proof fn lemma_tiling(n: nat, lens: Seq<nat>, start: nat)
-    requires
-        start <= n,
-        // every lexeme is non-empty (T2) ...
-        forall|i: int| 0 <= i < lens.len() ==> lens[i] >= 1,
-        // ... and the driver stopped exactly when the cursor (start + sum of lengths) hit n (T3)
-        start + sum(lens) == n,
-    ensures
-        lens.len() <= n - start,
-    decreases lens.len(),
+pub proof fn lemma_total_push(s: Seq<usize>, x: usize)
+    ensures total(s.push(x)) == total(s) + x as int,
 {
-    if lens.len() > 0 {
-        let rest = lens.subrange(1, lens.len() as int);
-        assert(forall|i: int| 0 <= i < rest.len() ==> rest[i] == lens[i + 1]);
-        lemma_tiling(n, rest, (start + lens[0]) as nat);
+    assert(s.push(x).drop_last() =~= s);
+}
+
+pub fn fv_driver_consumes_everything(input: &[u8]) -> (lens: Vec<usize>)
+    requires input@.len() <= 0x7fff_ffff_ffff_fff0,
+    ensures
+        total(lens@) == input@.len(),
+        forall|i: int| 0 <= i < lens@.len() ==> lens@[i] >= 1,
+        lens@.len() <= input@.len(),
+{
+    let mut lx = Lexer::new(input);
+    let mut lens: Vec<usize> = Vec::new();
+    loop
+        invariant
+            wf(lx),
+            lx.input@ == input@,
+            total(lens@) == lx.pos as int,
+            forall|i: int| 0 <= i < lens@.len() ==> lens@[i] >= 1,
+            lens@.len() <= lx.pos,
+            utf8_shape(input@) ==> boundary(input@, lx.pos as int),
+        ensures
+            total(lens@) == input@.len(),
+            forall|i: int| 0 <= i < lens@.len() ==> lens@[i] >= 1,
+            lens@.len() <= input@.len(),
+        decreases input@.len() - lx.pos,
+    {
+        let t = lx.next_token();
+        if matches!(t.kind, Kind::Eof) {
+            break;
+        }
+        proof {
+            lemma_total_push(lens@, t.len);
+        }
+        lens.push(t.len);
     }
+    lens
 }
 
 } // verus!
